@@ -4,7 +4,7 @@ use crate::verif_kit::*;
 
 /// C02 end-of-central-directory record serialisation (APPNOTE 4.3.16): every field value, 2-byte
 /// comment: fields at their offsets, comment length field == true length, comment verbatim.
-// @h prop=C02 tier=quick t=600 mem=6
+// @h prop=C02 tier=quick t=300 mem=4
 #[kani::proof]
 #[kani::unwind(6)]
 fn c02_eocd_write_layout() {
@@ -43,7 +43,7 @@ fn c02_eocd_write_layout() {
 }
 
 /// C02/C08 ZIP64 end record + locator serialisation (APPNOTE 4.3.14/4.3.15): every field value.
-// @h prop=C02,C08 tier=quick t=600 mem=6
+// @h prop=C02,C08 tier=quick t=300 mem=4
 #[kani::proof]
 #[kani::unwind(10)]
 fn c08_eocd64_and_locator_write_layout() {
@@ -98,7 +98,7 @@ fn c08_eocd64_and_locator_write_layout() {
 
 /// C03 end record parse: a record built by the independent builder with arbitrary values and a
 /// 2-byte comment is decoded field by field; a wrong signature is an error.
-// @h prop=C03 tier=quick t=600 mem=6
+// @h prop=C03 tier=quick t=300 mem=4
 #[kani::proof]
 #[kani::unwind(6)]
 fn c03_eocd_parse() {
@@ -187,14 +187,14 @@ macro_rules! c05_find_eocd {
 /// finds exactly the last position holding the end-record signature (trailing bytes after the
 /// record are tolerated); it fails only when no signature exists or the declared comment
 /// overruns the input.
-// @h prop=C05,C03 tier=quick t=900 mem=8 name=c05_find_eocd_24
+// @h prop=C05,C03 tier=quick t=300 mem=4 name=c05_find_eocd_24
 c05_find_eocd!(c05_find_eocd_24, 24, 8);
 /// C05 backward end-record search over every 28-byte input (7 candidate positions).
 // @h prop=C05,C03 tier=thorough t=1800 mem=12 name=c05_find_eocd_28
 c05_find_eocd!(c05_find_eocd_28, 28, 12);
 
 /// C05 inputs shorter than an end record are rejected with an error (no underflow).
-// @h prop=C05 tier=quick t=600 mem=6
+// @h prop=C05 tier=quick t=300 mem=4
 #[kani::proof]
 #[kani::unwind(4)]
 fn c05_find_eocd_too_short() {
@@ -212,7 +212,7 @@ fn c05_find_eocd_too_short() {
 /// C08/C03 ZIP64 end record forward search: a record built by the independent builder at
 /// nominal offset + shift (shift 0..=2 bytes of prepended data, symbolic) is found, all 64-bit
 /// fields decoded exactly, and the returned archive offset equals the shift.
-// @h prop=C08,C03 tier=quick t=900 mem=10
+// @h prop=C08,C03 tier=quick t=300 mem=4
 #[kani::proof]
 #[kani::unwind(12)]
 fn c08_eocd64_find_and_parse() {
@@ -261,7 +261,7 @@ fn c08_eocd64_find_and_parse() {
 /// C05 ZIP64 end record search over arbitrary bytes with arbitrary (nominal, upper bound)
 /// where the window is at most 4 positions: terminates, no overflow/panic; a hit implies the
 /// signature is at nominal + returned offset.
-// @h prop=C05 tier=quick t=900 mem=10
+// @h prop=C05 tier=quick t=480 mem=5
 #[kani::proof]
 #[kani::unwind(10)]
 fn c05_eocd64_search_arbitrary() {
@@ -290,7 +290,7 @@ fn c05_eocd64_search_arbitrary() {
 
 /// C03/C08 ZIP64 locator parse: every field value; wrong signature -> InvalidArchive (which the
 /// opener treats as "no ZIP64").
-// @h prop=C08,C03 tier=quick t=600 mem=6
+// @h prop=C08,C03 tier=quick t=300 mem=4
 #[kani::proof]
 #[kani::unwind(10)]
 fn c08_locator_parse() {
